@@ -276,6 +276,19 @@ def worker(ctx, job):
                 tag = (n + 3 * ci + len(algo)) % 251
                 check_write(ctx, res, srv, cache, flavour, side, entry, key, algo, n, tag, chunks, declared)
                 count += 1
+                # the address already holds a same-length but damaged file (bit rot): writing the bytes again must
+                # leave them readable — whatever the cache contained before
+                if ci == 0 and 0 < n <= 8193 and declared == declareds[0]:
+                    cp_ = os.path.join(cache, ref.content_rel(ctx.sri(wr.effective_algo(entry, algo), ref.gen(n, tag))))
+                    if os.path.isfile(cp_):
+                        with open(cp_, "r+b") as fh_:
+                            b_ = fh_.read(1)
+                            fh_.seek(0)
+                            fh_.write(bytes([b_[0] ^ 0x08]))
+                        before_v = len(res["violations"])
+                        check_write(ctx, res, srv, cache, flavour, side, entry, key, algo, n, tag, chunks, declared)
+                        for v_ in res["violations"][before_v:]:
+                            v_["sig"] = v_["sig"].replace("write:", "write-over-damaged-copy:", 1)
                 # single-call write() loop variant for small streamed inputs
                 if streamed and n <= 8193 and ci == 0:
                     check_write(ctx, res, srv, cache, flavour, side, entry, key, algo, n, tag + 1, chunks, declared, write_op="w_write")
